@@ -376,8 +376,8 @@ func closeRaceRound(c stressCfg) []string {
 		v   int
 		err error
 	}
-	var got []int // delivered before the first report
-	var r1 error  // the first report
+	var got []int  // delivered before the first report
+	var r1 error   // the first report
 	var post []obs // what Next returned once no Send was in flight any more
 	startRecv := make(chan struct{})
 	rwg.Add(1)
